@@ -1131,6 +1131,12 @@ def gen_C16(seed, tier):
             c.lin(E('Pos', 1), 11)
             c.apply(102, E('Add', E('SMulL', Sc('F', Fr(-1, 2)), E('Der', 2)), E('SMulL', Sc('F', Fr(1, 2)), E('Pos', 2))), 10); c.show(102)
             c.apply(103, E('DivS', E('SubS', E('Pos', 1), Sc('F', Fr(3, 2))), Sc('I', 4)), 11); c.show(103)
+            # divisors that are not powers of two, of integer and of floating type
+            c.apply(104, E('DivS', E('Pos', 2), Sc('I', 7)), 10); c.show(104)
+            c.apply(105, E('DivS', E('Der', 1), Sc('I', 3)), 11); c.show(105)
+            c.apply(106, E('DivS', E('Id'), Sc('F', Fr(6))), 10); c.show(106)
+            c.lin(E('DivS', E('Pos', 1), Sc('I', 3)), 10)
+            c.bilin(E('DivS', E('Id'), Sc('I', 5)), E('Pos', 1), 10, 11)
         cases.append(c)
     for r in range(reps):
         c = Case(f"C16s{r}")
